@@ -14,14 +14,25 @@ FILES = ["fa", "fb", "fc"]
 MULT = {"fa": 2, "fb": 3, "fc": 5}
 
 
-def file_text(name, imports, main_name=None):
-    lines = [f'import "{i}.facto";' for i in imports]
+SUBDIR = {"flat": set(), "sub": {"fb"}}  # which library files live in proj/sub/ (the others next to main.facto)
+
+
+def spelled(importer, importee, layout):
+    """the import path as the importing file has to write it: relative to its own directory"""
+    in_sub = lambda n: n in SUBDIR[layout]  # noqa: E731
+    if in_sub(importer) == in_sub(importee):
+        return importee
+    return f"sub/{importee}" if in_sub(importee) else f"../{importee}"
+
+
+def file_text(name, imports, main_name=None, layout="flat"):
+    lines = [f'import "{spelled(name, i, layout)}.facto";' for i in imports]
     lines.append(f"func {name}(Signal v) {{ return v * {MULT[name]} + {MULT[name]}; }}")
     return "\n".join(lines) + "\n"
 
 
-def main_text(imports):
-    body = [f'import "{i}.facto";' for i in imports]
+def main_text(imports, layout="flat"):
+    body = [f'import "{spelled("main", i, layout)}.facto";' for i in imports]
     body.append('Signal x = ("signal-A", 6);')
     return body
 
@@ -83,7 +94,7 @@ def cases(tier):
 
 
 def _job(args):
-    idx, edges, cwd_mode = args
+    idx, edges, cwd_mode, layout = args
     from bounded import pipeline
     from bounded.e2e import judge
     td = tempfile.mkdtemp(prefix="c17_")
@@ -91,18 +102,20 @@ def _job(args):
     try:
         sub = os.path.join(td, "proj")
         os.makedirs(sub)
+        os.makedirs(os.path.join(sub, "sub"))
         for f in FILES:
-            open(os.path.join(sub, f + ".facto"), "w").write(file_text(f, edges.get(f, [])))
+            d = os.path.join(sub, "sub") if f in SUBDIR[layout] else sub
+            open(os.path.join(d, f + ".facto"), "w").write(file_text(f, edges.get(f, []), layout=layout))
         used = sorted(reachable(edges, "main"))
         calls = [f"Signal r_{f} = {f}(x);" for f in used]
-        main_lines = main_text(edges["main"]) + calls
+        main_lines = main_text(edges["main"], layout) + calls
         main_src = "\n".join(main_lines) + "\n"
         main_path = os.path.join(sub, "main.facto")
         open(main_path, "w").write(main_src)
         twin = "\n".join(pasted_twin(edges) + calls) + "\n"
         os.chdir({"proj": sub, "parent": td, "root": "/"}[cwd_mode])
         cap = pipeline.compile_capture(main_src, source_name=main_path)
-        res = {"edges": edges, "cwd": cwd_mode, "problems": []}
+        res = {"edges": edges, "cwd": cwd_mode, "layout": layout, "problems": []}
         if not cap.ok:
             res["problems"].append(f"importing program rejected: {cap.error[:300]}")
             return idx, res
@@ -119,7 +132,7 @@ def _job(args):
         return idx, res
     except Exception as e:
         import traceback
-        return idx, {"edges": edges, "cwd": cwd_mode, "problems": [f"CHECKER: {type(e).__name__}: {e} {traceback.format_exc()[-500:]}"]}
+        return idx, {"edges": edges, "cwd": cwd_mode, "layout": layout, "problems": [f"CHECKER: {type(e).__name__}: {e} {traceback.format_exc()[-500:]}"]}
     finally:
         os.chdir(old)
         shutil.rmtree(td, ignore_errors=True)
@@ -131,7 +144,10 @@ def run_import_scope(name, tier, scope, known):
     jobs = []
     for i, e in enumerate(cs):
         for cwd in (("proj", "root") if tier == "quick" else ("proj", "parent", "root")):
-            jobs.append((i, e, cwd))
+            jobs.append((i, e, cwd, "flat"))
+        # the same graphs with one file in a subdirectory: a file is then reached under two spellings (x.facto / ../x.facto)
+        if tier != "quick" or i % 3 == 0:
+            jobs.append((i, e, "proj", "sub"))
     for idx, r in run_pool(_job, jobs):
         br.cases += 1
         br.distinct += 1
@@ -139,7 +155,8 @@ def run_import_scope(name, tier, scope, known):
             if p.startswith("CHECKER"):
                 br.error = p
                 continue
-            br.violations.append({"what": f"import graph {r['edges']} (cwd={r['cwd']}): {p}"[:500], "witness": {"edges": r["edges"], "cwd": r["cwd"]}})
+            br.violations.append({"what": f"import graph {r['edges']} (cwd={r['cwd']}, layout={r.get('layout')}): {p}"[:500],
+                                  "witness": {"edges": r["edges"], "cwd": r["cwd"], "layout": r.get("layout")}})
         if len(br.samples) < 3:
             br.samples.append({"edges": r["edges"], "cwd": r["cwd"]})
     br.assumptions = ["bounded: import graphs over 3 generated files + the main file, listed working directories"]
